@@ -203,6 +203,22 @@ ADDENDA6 = {
  "C19": " Round seven: the loop over the Accept header's values is left only when exhausted or with the invalid-header error; the client's not-found answer lies under no test on reading the body.",
  "C20": " Round seven: the http/https test of FindHTTPAddrs is made for every protocol of the address in turn.",
 }
+ADDENDA7 = {
+ "C01": " Round eight: a block request repeated round a retry loop is accepted on the edge where the previous attempt of that request failed. Not decided: that a memoised selector's key covers every input (one seeded change of that kind is not caught: seeded-missed/).",
+ "C04": " Round eight: the failure the block hook signals is written by FailSync and the per-segment reset only.",
+ "C06": " Round eight: `return ctx.Err()` on a source's failure counts as abandoning only when the caller's context ended.",
+ "C08": " Round eight: the CID of a head is taken out of the duplicate filter on the failure path only (never by the success notifier).",
+ "C09": " Round eight: the hand-over select waits on the context the routine was given, not on one derived for another step.",
+ "C11": " Round eight: the cap on a decoded length may be a configured limit (receiver field, constant default) tested on the decoded value itself.",
+ "C12": " Round eight: a length test stricter than the nonce length must still let the shortest real ciphertext (nonce + 16-byte tag) through.",
+ "C13": " Round eight: the reader over the data parameter reaches the codec itself (not wrapped in a limiting reader), also through shared decoding helpers.",
+ "C14": " Round eight: every return of the announce handler after the take is preceded by exactly one notification (shared with C08.L4).",
+ "C17": " Round eight: the provider sources hand on the record they decoded without writing to it.",
+ "C19": " Round eight: no routine of the find client hands out a response while cancelling, on return, a context it derived for the request (positive example kept); the status of every API error is put on the wire.",
+ "C20": " Round eight: the tcp component's value is the URL's port or, only where the URL has none, a configured default.",
+}
+for _pid, _extra in ADDENDA7.items():
+    ADDENDA6[_pid] = ADDENDA6.get(_pid, "") + _extra
 for _pid, _extra in ADDENDA6.items():
     ADDENDA5[_pid] = ADDENDA5.get(_pid, "") + _extra
 for _pid, _extra in ADDENDA5.items():
